@@ -81,6 +81,32 @@ CHECKS = {
         "Frames on the model time grid; a global sign under reversal is factored out (C10 decides it).",
         "DESIGN.md §2 C03",
     ),
+    "C01": (
+        "model_checking",
+        "exhaustive lattice of scheme x field x metric x step size on the real Tracker with a stage-recording forcing: trace conformance with the Butcher tableau; convergence corroboration; ROMS end-to-end differential",
+        "Every (scheme, field of an 8-member family, metric of 5 incl. dx!=dy and cell-wise, displacement, dt) x 25 start positions x steps: every recorded "
+        "stage query (position, fractional time) and the final displacement equal the scheme's tableau (RK2: any member of the second-order family); "
+        "observed orders vs closed-form flow maps for the Tracker and for analytical.get_velocity1/2/4; the real ROMS Grid/Forcing on exactly "
+        "interpolable fields against a reference stepper.",
+        "Order follows from tableau conformance by the classical theorem; corroborated at n=8,16,32 only; interior positions.",
+        "DESIGN.md §2 C01",
+    ),
+    "C14": (
+        "model_checking",
+        "exhaustive variant enumeration (all row subsets, permutations, mult changes, time shifts, repeat) per scenario of a scenario lattice; bitwise trajectory differential on paired Model runs",
+        "For each scenario (scheme x layout x death kind x period x kill step) on a ROMS world with depth-dependent current, varying bathymetry, land, "
+        "scalar forcing and IBM: the trajectory and variables of every particle (matched by a release-row tag) are bit-identical in every variant that contains it.",
+        "Diffusion off; float64 output; 4-row release table; one world.",
+        "DESIGN.md §2 C14",
+    ),
+    "C17": (
+        "model_checking",
+        "exhaustive boundary scenario lattice run twice: compiled kernels under NUMBA_BOUNDSCHECK=1, and python kernels on index-checking ndarray proxies; plus kernel-level 0.01 position lattice",
+        "Every (flow direction, speed up to 3 cells/step, scheme, subgrid, vertical mode, diffusion kick) with particles within 0.6 cell of every edge and "
+        "corner of the valid region at 4 depths; no subscript of trilinear / z2s_kernel leaves [0, shape) on any axis (negative, wrapping indices included).",
+        "numba code generation trusted once indices are in range; kernels rebound by name in the harness process.",
+        "DESIGN.md §2 C17",
+    ),
 }
 
 PENDING_REASON = "check not built yet (work in progress, see DESIGN.md §11 build order)"
